@@ -44,7 +44,9 @@ def build(case):
     rng = np.random.RandomState(case['sub'])
     t = 12.5
     pva = gen.to_pva(case['pva'], t)
-    if not case['with_altitude']:
+    # 2D mode: the integrator keeps VD at zero; a third of the BodyVelocity cases hand over a state whose VD is not zero all the
+    # same (a 3D solution evaluated with the 2D error model): the predicted body velocity is C_nb^T v of the state AS GIVEN
+    if not case['with_altitude'] and not (case['cls'] == 'BodyVelocity' and case['sub'] % 3 == 0):
         pva['VD'] = 0.0
     rates = rng.uniform(-1, 1, 3) if case['rates'] else None
     arm = {'none': None, 'zero': np.zeros(3), 'arm': rng.uniform(-5, 5, 3), 'arm_int': rng.uniform(-5, 5, 3), 'arm_list': rng.uniform(-5, 5, 3)}[case['lever']]
@@ -107,7 +109,7 @@ def run_model(case, ctx):
     n = 9 if wa else 7
     ctx.label(case['cls'], f"lever={case['lever']}", 'rates' if case['rates'] else 'no_rates', 'mode=3D' if wa else 'mode=2D')
     # (i) absent time -> None
-    for ta in (t + 0.3, t - 5.0, np.nextafter(t, np.inf)):
+    for ta in (t + 0.3, t - 5.0, np.nextafter(t, np.inf), t + 5.0, t - 1.5):       # between samples, before the first, after the last
         ctx.check(ctx.sut(m.compute_matrices, ta, full, em) is None, 'not_none_at_absent_time', f'time {ta}')
     snap = full.copy()
     dsnap = m.data.copy()
